@@ -320,14 +320,34 @@ def percpu(chk, repo):
     chk.ob("R08.5", pv.qualname + ".__getitem__", "value of CPU n lies n x "
            "map.size bytes into the buffer", ok, gi, "the kernel's per-CPU "
            "stride is the 8-rounded value size")
-    ifs = [s for s in walk_no_nested(gi) if isinstance(s, ast.If)]
-    ok = len(ifs) == 1 and match("0 <= key < len(self)", ifs[0].test) \
-        is not None
-    ln = pv.methods.get("__len__")
-    ok = ok and ln is not None and bool(find(
-        "self.descriptor.map.cpu_no", ln))
+    # abstract execution of __getitem__ for every index around the range
+    bad_ = []
+    for key in (-2, -1, 0, 1, 3, 4, 5):
+        seen_ = []
+        desc_ = Obj(None, {"map": Obj(None, {"cpu_no": 4, "size": 24,
+                                             "name": "m"}),
+                           "unpack": ("hook", lambda inst, data, *rest:
+                                      ("value", len(data)) if not rest
+                                      else ("value", len(data), rest))})
+        me_ = Obj(pv, {"descriptor": desc_, "instance": Obj(None, {
+            "ebpf": Obj(None, {"m": Obj(None, {"data": bytes(96)})})})})
+        try:
+            r_ = Evaluator(repo, pv.module, pv).call_function(
+                gi, [me_, key], cls=pv)
+            if not 0 <= key < 4:
+                bad_.append(f"index {key} of 4 CPUs is accepted")
+            elif r_ != ("value", 96 - 24 * key):
+                bad_.append(f"index {key}: reads {r_!r}")
+        except Raised as e:
+            if 0 <= key < 4 or not e.what.startswith("IndexError"):
+                bad_.append(f"index {key}: {e.what[:30]}")
+        except Unknown as e:
+            raise AnalysisError(f"{pv.qualname}.__getitem__: cannot be "
+                                f"evaluated: {e}")
+    ok = not bad_
     chk.ob("R08.5", pv.qualname + ".__getitem__", "index bounded by the CPU "
-           "count", ok, gi, "0 <= key < cpu_no, else IndexError")
+           "count", ok, gi, "; ".join(bad_[:3]) or "0 <= key < cpu_no, else "
+           "IndexError (7 indices evaluated)")
     # that the size collect() returns is a multiple of 8 covering every
     # slot (the per-CPU stride) is decided on the computed layouts: R08.2
     # "the size returned covers every slot and is a multiple of 8"
